@@ -675,7 +675,8 @@ func genCacheRTCase(r *rng) cacheRTCase {
 
 func TestC15(t *testing.T) {
 	dir := outDir(t)
-	rep := newReport("C15", "white-box: operation strings on the real cache.ResourceCache (append during bootstrap, mark, put/remove, get/list with and without selectors, teardown-bound contexts; readers issued before the mark are observed blocked under synctest) compared step by step with the model; "+
+	rep := newReport("C15", "white-box: operation strings on the real cache.ResourceCache (append during bootstrap, mark, put/remove, get/list with and without selectors, several teardown-bound contexts per resource whose readers may leave; readers issued before the mark are observed blocked under synctest) compared step by step with the model; "+
+		"a cached List overlapping one cache update (the reader is parked at every item in turn, for inserts, removals and updates, with label / ID / no query, with and without spare slice capacity) must return the contents before or after the update; "+
 		"black-box: a real Runtime with a cached kind, writes before and after Run, writes issued singly or in back-to-back bursts (incl. destroy + re-create of one id in one batch), at every quiescence CachedState().List == state List, and a probe QController checks that its cached read is never older than the state at reconcile time; "+
 		"non-trivial = a blocked reader, filtered list or cancelled context occurred; distinct by op list")
 
